@@ -3098,9 +3098,9 @@ impl<'a> Visitor<'a, '_, Error> for JSONValidator<'a> {
       self.state.data_location = current_location;
 
       self.errors.append(&mut jv.errors);
-      if entry.occur.is_some() {
-        self.state.occurrence = None;
-      }
+      // The occurrence in force (the entry's own or one inherited from an
+      // enclosing group) applied to this member only
+      self.state.occurrence = None;
 
       Ok(())
     } else if !self.state.advance_to_next_entry {
